@@ -18,6 +18,7 @@ INVARIANT EmptyIsDocumented
 INVARIANT EmptyFormIsEmptyMapping
 INVARIANT MalformedIs400Class
 INVARIANT RoundTrip
+INVARIANT BlankIsNotEmpty
 INVARIANT CustomErrorIsKept
 INVARIANT UnsupportedIs415
 PROPERTY MCNeverReparsed
